@@ -10,6 +10,8 @@ Line-protocol driver for C02.  All arguments are ints:
   `R` → write, re-read with the reader model of C03, judge under the written order: `ok iso <text>` | `ok DIFF <what> <text>` | …
   `C` → structural checkers on the writer's intermediate results (spanning tree, closures, parentheses, numbers)
   `H` → closure-number allocator alone: `H n (k cycle*)*` → numbers per atom | `err crash:IndexError`
+  `L` → the written body lexed and read by the positional reader `readL`: `ok n;i-j,…` (atom indices in reading order) — compared
+        with the bonds of the real `smiles(text)`
   `D` → the DFS result of every round (`start;visited;tree;closure bonds`) — compared with the locals of the real
         `_smiles` frame captured after its DFS loop
 -/
@@ -155,6 +157,10 @@ def handle (line : String) : String :=
           | .error e => "err " ++ e.name
         else if op == "R" then roundTrip m env opts
         else if op == "C" then checkRun m env opts
+        else if op == "L" then
+          match smilesRounds m env opts with
+          | .ok (rs, _) => "ok " ++ readBody (renderAll (joinRounds rs))
+          | .error e => "err " ++ e.name
         else if op == "D" then
           match smilesRounds m env opts with
           | .ok (rs, _) => "ok " ++ showDfs rs
